@@ -4192,7 +4192,13 @@ class TLSConnection(TLSRecordLayer):
                 if not extensions:
                     extensions = None
                 serverHello = ServerHello()
-                serverHello.create(version, getRandomBytes(32),
+                # RFC 8446, section 4.1.3
+                random = getRandomBytes(32)
+                if version == (3, 3) and settings.maxVersion > (3, 3):
+                    random[-8:] = TLS_1_2_DOWNGRADE_SENTINEL
+                if version < (3, 3) and settings.maxVersion >= (3, 3):
+                    random[-8:] = TLS_1_1_DOWNGRADE_SENTINEL
+                serverHello.create(version, random,
                                    session.sessionID, session.cipherSuite,
                                    CertificateType.x509, None, None,
                                    extensions=extensions)
